@@ -449,16 +449,6 @@ pub fn run(tier: Tier) -> i32 {
                 if stmt.starts_with("SET ") || stmt.starts_with("RESET") {
                     continue;
                 }
-                // a TEMP-table scan emits whole stored chunks whatever batch_size says and operators panic when the
-                // batch size is smaller than the table (known finding, C03 tempscan-smallbatch): statements reading
-                // the 3-row table t are not run with batch sizes 1 and 2
-                let small = sets[0] == "SET batch_size TO 1" || sets[0] == "SET batch_size TO 2";
-                if small && (stmt.contains(" t") || stmt.contains("\"t\"") || stmt.contains("vt") || stmt.starts_with("DESCRIBE t")) && !stmt.contains("generate_series(1, ") {
-                    continue;
-                }
-                if !alive || w.d.dirty {
-                    w.fresh();
-                }
                 for st in sets {
                     let _ = w.d.q(st);
                 }
